@@ -460,15 +460,20 @@ pub fn run(a: &Args) {
         cases.push_nt(g, coq, json, t.files.len() >= 2 && t.dirs.len() >= 2);
     };
 
-    // the embedded fixed tree (walked at run time for the specification, embedded at compile time)
-    {
-        let t = tree_of_fs(&Path::new(env!("CARGO_MANIFEST_DIR")).join("trees/t1"));
-        let raw = assets_manager::source::embed!("trees/t1");
-        push(&mut cases, &t, "embedded trees/t1".into(), probe(Embedded::from(raw), &t, true));
-        iter_monitor(Embedded::from(raw), &t, "embedded", &mut iter_bad);
-        let fs = FileSystem::new(Path::new(env!("CARGO_MANIFEST_DIR")).join("trees/t1")).unwrap();
-        push(&mut cases, &t, "filesystem trees/t1".into(), probe(fs, &t, false));
+    // the embedded fixed trees (walked at run time for the specification, embedded at compile time)
+    macro_rules! embedded_tree {
+        ($dir:literal) => {{
+            let t = tree_of_fs(&Path::new(env!("CARGO_MANIFEST_DIR")).join($dir));
+            let raw = assets_manager::source::embed!($dir);
+            push(&mut cases, &t, format!("embedded {}", $dir), probe(Embedded::from(raw), &t, true));
+            iter_monitor(Embedded::from(raw), &t, "embedded", &mut iter_bad);
+            conc_reads += concurrent_reads(&Embedded::from(raw), &t, "embedded", &mut iter_bad);
+            let fs = FileSystem::new(Path::new(env!("CARGO_MANIFEST_DIR")).join($dir)).unwrap();
+            push(&mut cases, &t, format!("filesystem {}", $dir), probe(fs, &t, false));
+        }};
     }
+    embedded_tree!("trees/t1");
+    embedded_tree!("trees/t2");
 
     for i in 0..n_trees {
         let t = gen_tree(&mut rng);
